@@ -112,6 +112,19 @@ mod imp {
         CURRENT.try_with(|c| c.borrow().clone()).ok().flatten()
     }
 
+    static SIMULATED_PROCESS: std::sync::atomic::AtomicBool = std::sync::atomic::AtomicBool::new(false);
+
+    /// Declares that this process is a simulator: objects created from now on by threads without an
+    /// installed runtime (e.g. the simulator's driver thread) also use their simulated variant.
+    pub fn set_simulated_process(on: bool) {
+        SIMULATED_PROCESS.store(on, std::sync::atomic::Ordering::SeqCst);
+    }
+
+    /// True if a runtime is installed on this thread or the process was declared a simulator.
+    pub fn simulated() -> bool {
+        SIMULATED_PROCESS.load(std::sync::atomic::Ordering::SeqCst) || current().is_some()
+    }
+
     /// Handle of a task spawned through [`spawn`].
     pub enum TaskHandle {
         /// A real tokio task.
@@ -273,6 +286,12 @@ mod imp {
                     RandomState {
                         real: None,
                         seed: rt.rand_u64("hash_seed"),
+                    }
+                }
+                None if SIMULATED_PROCESS.load(std::sync::atomic::Ordering::SeqCst) => {
+                    RandomState {
+                        real: None,
+                        seed: 0x5eed,
                     }
                 }
                 None => {
